@@ -176,6 +176,21 @@ func (dec *Decoder) decodeWithPool(data []byte) (*DecodeResult, error) {
 	return res, nil
 }
 
+// decodeNested decodes the contents of a nested message field.
+//
+// Unlike decodeWithPool, which returns a nil result for empty input, a zero-length nested message
+// yields an empty, non-nil result so callers can use it like any other nested result.
+func (dec *Decoder) decodeNested(data []byte) (*DecodeResult, error) {
+	if len(data) > 0 {
+		return dec.decodeWithPool(data)
+	}
+	res, ok := dec.pool.Get().(*DecodeResult)
+	if !ok {
+		return nil, fmt.Errorf("invalid decoder")
+	}
+	return res, nil
+}
+
 // newBaseResult creates a new DecodeResult object based on the given definition
 // all other initialization of this DecodeResult is done by cloning the resulting object
 func (dec *Decoder) newBaseResult(def Def) (*DecodeResult, error) {
